@@ -463,10 +463,16 @@ def rule_T11(ctx: Ctx) -> None:
     ok = [o for o in order if o != "params"] == ["subset", "permute", "group", "shuffle", "tokenize"]
     ctx.judge(f, ok, {"pipeline": order}, "adjacency region = subset -> permute -> group -> (shuffle groups) -> tokenize each group with optional pre/post delimiters",
               "edges are grouped before being permuted / tokenized from another edge set")
-    lc = [n for n in ast.walk(f.node) if isinstance(n, ast.ListComp) and X.U(n.generators[0].iter) == "groups"]
-    ok = len(lc) == 1 and X.same_expr(lc[0].elt, "[*empty_sequence_if_attr_false((VOCAB.ADJLIST_PRE,), self, 'pre'), *self._tokenize_edge_grouping(group, maze, coord_tokenizer, group_params), "
-                                      "*empty_sequence_if_attr_false((VOCAB.ADJACENCY_ENDLINE,), self, 'post')]")
-    ctx.judge(f, ok, {}, "each group is framed by ADJLIST_PRE (iff pre) and the endline token (iff post)")
+    pp = X.per_item_parts(f.node, "groups")
+    ok = False
+    slot = {}
+    if pp is not None:
+        v, parts = pp
+        slot = {"per_group": [f"{'*' if k == 'splat' else ''}{X.U(e)[:70]}" for k, e in parts]}
+        want = ["empty_sequence_if_attr_false((VOCAB.ADJLIST_PRE,), self, 'pre')", f"self._tokenize_edge_grouping({v}, maze, coord_tokenizer, group_params)",
+                "empty_sequence_if_attr_false((VOCAB.ADJACENCY_ENDLINE,), self, 'post')"]
+        ok = len(parts) == 3 and all(k == "splat" and X.same_expr_x(e, f.node, w_, keep=(v, "group_params")) for (k, e), w_ in zip(parts, want))
+    ctx.judge(f, ok, slot, "each group is framed by ADJLIST_PRE (iff pre) and the endline token (iff post)")
     ep = ctx.index.cls(f"{MT}.EdgePermuters")
     b = ep.nested["BothCoords"].methods["_permute"]
     r = X.returns_of(b.node)
